@@ -42,5 +42,9 @@ J gen_tasks(const std::string&, uint64_t, const std::string&);  void exec_tasks(
 J gen_ro(const std::string&, uint64_t, const std::string&);     void exec_ro(const J&);
 J gen_nest(const std::string&, uint64_t, const std::string&);   void exec_nest(const J&);
 
+// process locale for C17 runs: a synthetic LC_NUMERIC with ',' as radix character (the application's locale is global state the
+// library shares with it; a library that 'temporarily' switches it is caught when it does)
+bool comma_locale(bool on);
+
 // common knob parsing
 SaKnobs knobs_alloc(const J& plan);
